@@ -95,6 +95,7 @@ def main():
                     break
                 yield c
         prop.gen_cases = limited
+        prop.N_CASES_IGNORE = True
     # needles found once (by a red team, a soak, another seed) that the seeded
     # sample of this tier reaches only now and then: their replay files are
     # kept under regress/ and re-run on every check
